@@ -11,7 +11,7 @@ CHECKS = {
   "note": "reference matcher (mv/ref_match.py) is trusted; cases exceeding its candidate budget are skipped and counted",
  },
  "C03": {
-  "technique": "Hypothesis metamorphic testing (shift+wrap, permutation, pattern motion, hints, seeds, replication) on generated structures and the repository's MOF files",
+  "technique": "Hypothesis metamorphic testing (shift+wrap, permutation incl. in-place re-listing of the searched object, rotation of the whole crystal, pattern motion, hints, seeds, replication) on generated structures and the repository's MOF files",
   "text": "For each generated base case one transformation is applied and the renamed set of matched atom groups must be equal (x a*b*c under replication); differences are tolerated only for groups the reference classifies grey. Real files (uio66, uio66-triclinic, hkust-1) get the same relations, the only oracle available there.",
   "note": "replication relies on Atoms.replicate (C12); supercells bounded to ~300 atoms in the generated part",
  },
@@ -46,7 +46,7 @@ CHECKS = {
   "note": "identity through unique charge tags (re-tagged by the harness after replicate/replace); subset drops terms by documentation",
  },
  "C10": {
-  "technique": "exhaustive enumeration (every subset x listing orders x containers, pop, two-step deletions on a fixed family) + Hypothesis random structures, against an identity-tag model",
+  "technique": "exhaustive enumeration (every subset x listing orders x containers, pop at every position, two-step and copy-then-delete histories on a fixed family) + Hypothesis random structures up to hundreds of atoms, against an identity-tag model",
   "text": "For the family of n<=5 (quick) / n<=6 (thorough) structures every non-empty subset in three orders is enumerated completely; plus random typed structures up to 12/40 atoms. Survivors in order with all data; a term survives iff untouched, with the same tagged atoms, type and extra fields.",
   "note": "duplicate / out-of-range indices are outside the domain",
  },
@@ -56,12 +56,12 @@ CHECKS = {
   "note": "pairs generated compatible per term kind; untyped kinds compared by type partition",
  },
  "C12": {
-  "technique": "Hypothesis typed structures x replication triples against the direct statement (image atoms identified by position), all cell orientations",
+  "technique": "Hypothesis typed structures x replication triples against the direct statement (image atoms identified by position), all cell orientations; replicate-edit-replicate histories and aliasing checks",
   "text": "a*b*c*N atoms, one atom per (original, image) at pos + iA + jB + kC with identical resolution, cell rows scaled, terms (incl. impropers, terms without bonds, per-term extra fields) copied within each image, tables unchanged, original unmodified, (1,1,1) identity.",
   "note": "atom order of the result not asserted",
  },
  "C13": {
-  "technique": "Hypothesis typed structures; independent LAMMPS data reader written in the harness + load round trip + write idempotence",
+  "technique": "Hypothesis typed structures (up to hundreds of atoms); independent LAMMPS data reader written in the harness + load round trip + write idempotence + second write after editing the object",
   "text": "The written text is parsed by mv/ref_lammps.py (no shared code): counts, type counts, box/tilt, masses, atoms, terms and coefficient rows must state the structure; load_lmpdat must reproduce ids, positions, cell, charges, groups, masses, labels, terms and coefficients token for token; second and third write byte-identical; path and file-object I/O agree; tables with 10-12 rows, id gaps, tiny tilts, both atom styles.",
   "note": "elements after reload are C14's business; printed precision %10.6f",
  },
